@@ -21,6 +21,7 @@ fn do_case(case: Vec<i128>) {
                 3 => forms::run::<u32, Tr, Tr, N>(&case),
                 4 => forms::run::<forms::Cn, forms::Cn, forms::Cn, N>(&case),
                 6 => forms::run::<harness::track::Tz, harness::track::Tz, harness::track::Tz, N>(&case),
+                7 => forms::run::<Tr, Tr, u32, N>(&case),
                 _ => forms::run::<forms::Zs, forms::Zs, forms::Zs, N>(&case),
             },
             panic!("length {} not monomorphised", n)
@@ -68,6 +69,11 @@ fn main() {
                     if op == 3 {
                         dist("zst_counted");
                         do_case(vec![op, form, 6, n as i128, pan, 0, 0, mode]);
+                    }
+                    // map of drop-tracked inputs to plain outputs (an output type without drop glue)
+                    if op == 0 {
+                        dist("map_to_plain");
+                        do_case(vec![op, form, 7, n as i128, pan, 0, 0, mode]);
                     }
                     // zip of a drop-tracked with a plain array and vice versa
                     if op == 1 {
